@@ -534,6 +534,12 @@ fn run_program(mut rq: Request, sh: &Arc<Shared>, rx: usize) {
         Finish::Writer { parts, flush } => {
             let mut w = rq.into_writer();
             for p in parts {
+                if p.0.is_empty() && !*flush {
+                    // an empty part of an unflushed writer stands for a zero-length write call
+                    // (write_all would not call write at all)
+                    let _ = w.write(&[]);
+                    continue;
+                }
                 if let Err(e) = w.write_all(&p.0) {
                     ok = false;
                     err = Some(format!("{:?}", e.kind()));
